@@ -114,6 +114,15 @@ class LifeRun:
         if dup is None:
             dup = ((LifeRun.runs // 2) % nroutes + 1) if (front == 'v2' and nroutes >= 1 and LifeRun.runs % 2 == 0) else 0
         self.dup = dup          # route index declared a second time (0: none); kept in replay objects
+        # every third of those runs declares the route, detaches its handler and declares it again (accepted: the prefix is
+        # free again) - still one declared route, registered once per connection
+        # (recorded as a negative `dup` so that a replay does the same)
+        if dup > 0 and front == 'v2' and LifeRun.runs % 6 == 0:
+            dup = self.dup = -dup
+        if dup < 0:
+            self.app.detach_handler(self.base + '/' + ROUTE % -dup)
+            self.app.route(self.base + '/' + ROUTE % -dup)(lambda name, app_param, reply, context: None)
+            dup = 0
         if dup:
             try:
                 self.app.route(self.base + '/' + ROUTE % dup)(lambda name, app_param, reply, context: None)
